@@ -208,6 +208,30 @@ Theorem C20_keypath_binds :
 Proof. exact kp_string_binds. Qed.
 Print Assumptions C20_keypath_binds.
 
+(* ProofOperators.VerifyValue over ValueOps (the operators of merkle.DefaultProofRuntime) accepts a
+   value under a root only if the key path parses and every operator's Merkle proof VERIFIES in
+   the sense of C10 - the root recomputed from index, total, leaf hash and aunts - for the leaf
+   <operator key, hash of the previous result>, from the value up to the root (so the C10 binding
+   theorems apply operator by operator) *)
+Theorem C20_valueops_sound :
+  forall (H : bytes -> bytes) (ops : list vop) (root kp value : bytes),
+    vops_verify H ops root kp value = true ->
+    exists keys, key_path_to_keys kp = Some keys /\ proved H ops value root.
+Proof. exact vops_verify_sound. Qed.
+Print Assumptions C20_valueops_sound.
+
+(* repair F62: in particular the accepted root is a hash that was computed - an operator from
+   which no root can be computed never "proves" anything, whatever the root (an empty AppHash
+   included; the unrepaired ValueOp.Run returned nil, which bytes.Equal takes for the empty root) *)
+Theorem C20_valueops_root_recomputed :
+  forall (H : bytes -> bytes) (ops : list vop) (root kp value : bytes),
+    ops <> [] -> vops_verify H ops root kp value = true ->
+    exists op x, In op ops /\
+      from_aunts H (pf_index (vo_proof op)) (pf_total (vo_proof op))
+                 (leaf_hash H (kv_leaf H (vo_key op) x)) (rev (pf_aunts (vo_proof op))) = Some root.
+Proof. exact vops_verify_root_recomputed. Qed.
+Print Assumptions C20_valueops_root_recomputed.
+
 (* ---------------------------------------------------------------- ConsensusParams *)
 
 Theorem C20_params_sound_complete :
@@ -351,6 +375,28 @@ Example C20_keypath_nonvacuous_and_F58_witness :
   key_path_to_keys [47; 120; 37; 51; 65; 54; 49; 54; 50]%N = Some [[120; 58; 54; 49; 54; 50]%N] /\
   key_path_to_keys [47; 120; 58; 54; 49; 54; 50]%N = Some [[97; 98]%N] /\
   key_path_to_keys [] = None /\ key_path_to_keys [47; 37; 52]%N = None /\ key_path_to_keys [47; 120; 58; 52]%N = None.
+Proof. vm_compute. repeat split; reflexivity. Qed.
+
+(* ValueOps on concrete data: the value [7] under key "k" in a one-leaf store "s" of a one-store
+   application verifies against the computed application root and not against another value.
+   F62: the same two operators with un-computable inner proofs (total 0; index 5 of 1) have NO
+   root - C10 compute_root gives [] for them, Go's nil - and are refused against the EMPTY root,
+   which the unrepaired code accepted for any value. *)
+Example C20_valueops_nonvacuous_and_F62_witness :
+  let k := [107%N] in let st := [115%N] in
+  let leaf0 v := leaf_hash sha256 (kv_leaf sha256 k v) in
+  let sroot v := leaf0 v in
+  let leaf1 v := leaf_hash sha256 (kv_leaf sha256 st (sroot v)) in
+  let op0 v tot idx := {| vo_key := k; vo_proof := {| pf_total := tot; pf_index := idx; pf_leaf_hash := leaf0 v; pf_aunts := [] |} |} in
+  let op1 v tot idx := {| vo_key := st; vo_proof := {| pf_total := tot; pf_index := idx; pf_leaf_hash := leaf1 v; pf_aunts := [] |} |} in
+  let kp := kp_string [(st, EncURL); (k, EncURL)] in
+  let lie := [op0 [9%N] 0 0; {| vo_key := st; vo_proof := {| pf_total := 1; pf_index := 5;
+                pf_leaf_hash := leaf_hash sha256 (kv_leaf sha256 st []); pf_aunts := [] |} |}] in
+  vops_verify sha256 [op0 [7%N] 1 0; op1 [7%N] 1 0] (leaf1 [7%N]) kp [7%N] = true /\
+  vops_verify sha256 [op0 [7%N] 1 0; op1 [7%N] 1 0] (leaf1 [7%N]) kp [9%N] = false /\
+  vops_verify sha256 [op0 [7%N] 1 0; op1 [7%N] 1 0] [] kp [7%N] = false /\
+  vops_verify sha256 lie [] kp [9%N] = false /\
+  map (fun o => compute_root sha256 (vo_proof o)) lie = [[]; []].
 Proof. vm_compute. repeat split; reflexivity. Qed.
 
 (* the honest results of block 2 are relayed against header 3; a changed gas figure or a wrong
